@@ -22,6 +22,7 @@ operands are `['n', i]` (value of node i) or `['c', number]`; node kinds:
     idx    {'k','a','i'}                      a[i]  (output i of a multi-output unit)
     list   {'k','items'}                      [..]  (c02: multichannel expansion)
     sink   {'k','cls','m','bus','chans'|'args'}      Out.ar(bus, [chans]) ...
+    raw    {'k','src'}                        verbatim statement (c02 only)
 
 API (everything except namespace/make_func/build is sc3-free):
 
@@ -487,6 +488,8 @@ def render_node(i, nd, program):
                 + ', '.join(_opnd(o) for o in nd['items']) + ']))')
     if k == 'idx':
         return f"v{i} = {_opnd(nd['a'])}[{nd['i']}]"
+    if k == 'raw':                  # verbatim statement (c02 invalid inputs)
+        return nd['src']
     if k == 'list':
         return (f"v{i} = ChannelList(["
                 + ', '.join(_opnd(o) for o in nd['items']) + '])')
@@ -1082,7 +1085,8 @@ class Gen:
         rates = [2, 1] + [rng.choice([0, 1, 2]) for _ in range(rng.randint(0, 2))]
         rng.shuffle(rates)
         items = [self.node_of_rate(r) for r in rates]
-        if any(o is None for o in items):
+        if any(o is None for o in items) or (
+                self.no_dup and len({o[1] for o in items}) != len(items)):
             return None
         recv = self.add({'k': 'list', 'items': items})
 
@@ -1118,6 +1122,8 @@ class Gen:
             nd = {'k': 'un', 'op': op, 'a': recv,
                   'form': rng.randrange(len(oc.UNARY_FORMS[op]))}
         res = self.add(nd)
+        if res is None:              # no_dup mode rejected the node
+            return None
         inf = self.info[res[1]]
         if inf.einfo is None:
             return None
